@@ -946,7 +946,15 @@ impl<'a, F: Function + RenderHints> OctreeBuilder<'a, F> {
                 // sharp feature in the mesh, so we should just snap to that
                 // point specifically.  This means we don't solve the QEF, and
                 // instead mark it as invalid.
-                if grad.iter().any(|f| f.is_nan()) {
+                //
+                // A gradient that cannot be normalized (zero or infinite) is
+                // just as unusable as a NaN one: normalizing it would poison
+                // the QEF and produce a NaN vertex.
+                let grad_norm = grad.xyz().norm();
+                if grad.iter().any(|f| f.is_nan())
+                    || grad_norm == 0.0
+                    || !grad_norm.is_finite()
+                {
                     force_point = Some(pos);
                     hermite_cell.qef_err = QEF_ERR_INVALID;
                     break;
